@@ -340,7 +340,7 @@ pub fn main(args: &[String]) -> i32 {
                 if n > 8 { v[1] = kid as u8; v[2] = (step / 251) as u8; }
                 v
             };
-            if rng.random_range(0..6) == 0 && key.len() < 1000 {
+            if !hugepair && rng.random_range(0..6) == 0 && key.len() < 1000 {
                 let free = store.verif_free_runs();
                 let at = predict_alloc(&free, 2);
                 let as_marker = rng.random_bool(0.3);
